@@ -616,7 +616,8 @@ SUBCHECKS = {"random": check_case, "sweep": check_sweep}
 
 def run(ctx):
     quick = ctx.tier == "quick"
-    total = 6400 if quick else 160000
-    maxl = 8 if quick else 30
-    runner.run_given(ctx, "random", cases(maxl), check_case, total // ctx.nshards)
+    # the sweep is deterministic and cheap: run it first so that a loaded machine cannot starve it
     runner.run_items(ctx, "sweep", sweep_items(2, 2) if quick else sweep_items(3, 2), check_sweep)
+    total = 6400 if quick else 64000
+    maxl = 8 if quick else 20
+    runner.run_given(ctx, "random", cases(maxl), check_case, total // ctx.nshards)
